@@ -146,3 +146,22 @@ Proof.
     split; [assumption|].
       intros Hin; apply in_app_or in Hin; destruct Hin as [Hin|Hin]; eapply Hnot; eassumption.
 Qed.
+
+Lemma dedupN_NoDup : forall l, NoDup (dedupN l).
+Proof.
+  induction l as [|x r IH]; simpl; [constructor|].
+  destruct (memN x r) eqn:E; [assumption|]. constructor; [|assumption].
+  intros Hin. apply memN_false in E. apply E. clear -Hin.
+  induction r as [|y r IH]; simpl in *; [contradiction|].
+  destruct (memN y r) eqn:E; [right; apply IH; assumption|].
+  destruct Hin as [->|Hin]; [left; reflexivity | right; apply IH; assumption].
+Qed.
+
+Lemma dedupN_In : forall x l, In x (dedupN l) <-> In x l.
+Proof.
+  intros x l; induction l as [|y r IH]; simpl; [tauto|].
+  destruct (memN y r) eqn:E.
+  - rewrite IH. split; [tauto|]. intros [->|H]; [apply memN_In; assumption | assumption].
+  - simpl. rewrite IH. tauto.
+Qed.
+
